@@ -1085,6 +1085,13 @@ def wl_C17(rng, w, cfg, index):
             yield case('parse', [dict(W), {'op': 'PARSE', 'a': 0, 'path': '?', 'doc': 'p0', 'c17ref': True},
                                  {'op': 'FAULT', 'kind': 'fs.encoding', 'params': {'encoding': enc}},
                                  {'op': 'PARSE', 'a': 0, 'path': '?', 'doc': 'p1', 'c17cmp': 'p0'}], priors[0], None)
+        # 4b'. a three-step history: the written file is re-stored by another tool in a non-UTF-8 encoding it declares,
+        #      parsed, and the parsed score written again - the second file too is UTF-8 and holds exactly its to_string()
+        #      (seeded change C17-m7: the parser remembers the source encoding and write() reuses it)
+        for to in rng.sample(['iso-8859-1', 'windows-1252', 'utf-16', 'iso-8859-15'], 2):
+            yield case('reparse-rewrite', [dict(W), {'op': 'FAULT', 'kind': 'disk.redeclare', 'params': {'path': '?', 'to': to}},
+                                           {'op': 'PARSE', 'a': 0, 'path': '?', 'doc': 'p0'},
+                                           dict(W, doc='p0')], rng.choice(priors), rng.choice(encs) if rng.random() < 0.5 else None)
         # 4c. the same for damaged files (truncated / rotted / flipped): the parser must fail the same way under
         #     every default encoding
         for enc in encs[1:]:
@@ -1209,6 +1216,14 @@ def wl_C20(rng, w, cfg, index):
                 nums = [x for x in g if isinstance(x, float)] or g
                 if nums:
                     yield {'op': 'ATTR_SET', 'a': 0, 'p': [doc], 'name': spec.py_attr_name(a), 'value': rng.choice(nums)}
+        if getattr(m, 'alpha', None) and rng.random() < 0.75:
+            # the xml_* shortcut resolves the class's child names on first use (seeded change C20-m7: a memo of
+            # those names published before it is filled): read, assign an element and read an unknown name
+            xs = list(m.alpha)
+            yield {'op': 'DOT_GET', 'a': 0, 'p': [doc], 'name': rng.choice(xs)}
+            x = rng.choice(xs)
+            yield {'op': 'DOT_SET', 'a': 0, 'p': [doc], 'name': x, 'v': {'kind': 'element', 'c': kit.childspec(x)}}
+            yield {'op': 'DOT_GET', 'a': 0, 'p': [doc], 'name': 'bogus_child'}
         if rng.random() < 0.6:
             # misuse is part of the programs too: an unknown attribute name by dot assignment / read / constructor
             yield {'op': 'ATTR_SET', 'a': 0, 'p': [doc], 'name': 'bogus', 'value': 1}
